@@ -96,7 +96,7 @@ def calibrate(kind):
         d, path, retlog = _paths("cal-" + kind)
         cf = os.path.join(d, "count")
         t0 = time.time()
-        rc = wait(fork_writer(kind, path, retlog, count_file=cf), timeout=12)
+        rc = wait(fork_writer(kind, path, retlog, count_file=cf), timeout=25)
         dur = time.time() - t0
         n = int(open(cf).read()) if rc == 0 and os.path.exists(cf) else 0
         shutil.rmtree(d, ignore_errors=True)
@@ -147,7 +147,7 @@ def run_case(ctx, name, params):
         k = params.get("k")
         d, path, retlog = _paths("%s-%s" % (kind, k))
         try:
-            rc = wait(fork_writer(kind, path, retlog, kill_at=k), timeout=max(15, 40 * calibrate(kind)[1]))
+            rc = wait(fork_writer(kind, path, retlog, kill_at=k), timeout=max(60, 100 * calibrate(kind)[1]))
             wit = lambda extra=None: {"writer": kind, "instrument": "python_event", "crash_at_event": k, "child_exit": rc, "extra": extra}
             if rc is None:
                 ctx.not_reached("writer %s did not finish within the watchdog (event %s)" % (kind, k))
